@@ -61,6 +61,181 @@ class _F:
         return self._f.loc()
 
 
+def _entry(ck, ctx):
+    """O-entry: the entry points evaluated abstractly with the outside world replaced by recorders (entryabs): which value
+    flows where, however the functions are written"""
+    import itertools
+    from ..entryabs import evaluate, CONTENT, RESULT
+    from ..pyabs import W, Obj, PyRaise, Raised, LexUnknown, NonUniform, deep_eq
+    from ..objabs import run_tail, format_output, ShapeMismatch
+
+    def eq(a, b):
+        try:
+            return deep_eq(a, b)
+        except NonUniform:
+            return False
+
+    def w(*xs):
+        return W([xs[i % len(xs)] for i in range(6)])
+    path = w("a.sql", "dir/b.ddl", "x.y.hql", "rel-1.2/users.sql", "./u.sql", "../up/c.bql")
+    target = w("schemas", "out", "build/json/v1", "/tmp/t", "a.b", "T")
+    PF = "simple_ddl_parser.ddl_parser:parse_from_file"
+
+    def ob(key, ok, detail, where):
+        ck.ob("O-entry", key, ok, detail, where)
+    try:
+        # ---- parse_from_file
+        encs = [("default", {}, "utf-8"), ("utf-16", {"encoding": "utf-16"}, "utf-16"), ("latin-1, positional", None, "latin-1")]
+        settings = [("absent", {}, {}), ("None", {"parser_settings": None}, {}), ("empty", {"parser_settings": {}}, {}),
+                    ("silent=False", {"parser_settings": {"silent": False}}, {"silent": False}),
+                    ("normalize_names=True, silent=True", {"parser_settings": {"normalize_names": True, "silent": True}}, {"normalize_names": True, "silent": True}),
+                    ("normalize_names=False", {"parser_settings": {"normalize_names": False}}, {"normalize_names": False})]
+        extras = [("none", {}), ("dump", {"dump": True, "dump_path": target, "output_mode": "hql"}), ("dump=False", {"dump": False}),
+                  ("group_by_type, json_dump", {"group_by_type": True, "json_dump": True}), ("output_mode", {"output_mode": "bigquery"})]
+        n = 0
+        problems = {}
+        for (en, ek, enc), (sn, sk, sexp), (xn, xk) in itertools.product(encs, settings, extras):
+            n += 1
+            args = [path] if ek is not None else [path, "latin-1"]
+            kwargs = dict(ek or {})
+            kwargs.update(sk)
+            kwargs.update(xk)
+            res, log = evaluate(ctx, PF, args, kwargs)
+            opens = [l for l in log if l[0] == "open"]
+            ctors = [l for l in log if l[0] == "construct DDLParser"]
+            runs = [l for l in log if l[0] == "DDLParser.run"]
+            reads = [l for l in log if l[0] == "read"]
+            case = f"encoding {en}, parser_settings {sn}, run arguments {xn}"
+            if len(opens) != 1 or not eq(opens[0][1][0] if opens[0][1] else opens[0][2].get("file"), path):
+                problems.setdefault("the file opened is file_path, once", case)
+            elif (opens[0][1][1] if len(opens[0][1]) > 1 else opens[0][2].get("mode", "r")) not in ("r", "rt"):
+                problems.setdefault("the file is opened for reading as text", case)
+            elif opens[0][2].get("encoding", opens[0][1][3] if len(opens[0][1]) > 3 else None) != enc:
+                problems.setdefault("the encoding reaches open()", f"{case}: open got encoding {opens[0][2].get('encoding')!r}")
+            if len(reads) != 1:
+                problems.setdefault("the file is read once", case)
+            if len(ctors) != 1 or not (eq(ctors[0][1], [CONTENT]) or (not ctors[0][1] and eq(ctors[0][2].get("content"), CONTENT))):
+                problems.setdefault("the decoded file content is the parser's first argument", case)
+            elif not eq({k: v for k, v in ctors[0][2].items() if k != "content"}, sexp):
+                problems.setdefault("parser_settings are exactly the constructor keywords",
+                                    f"{case}: constructor keywords { {k: v for k, v in ctors[0][2].items() if k != 'content'} }, settings {sexp}")
+            want_run = dict(xk)
+            want_run["file_path"] = path
+            if len(runs) != 1 or runs[0][1] or not eq(runs[0][2], want_run):
+                problems.setdefault("file_path and the remaining keywords reach run()",
+                                    f"{case}: run() got {runs[0][2] if runs else None}")
+            if not (res is RESULT or eq(res, RESULT)):
+                problems.setdefault("the result of run() is returned as is", case)
+        for key in ("the file opened is file_path, once", "the file is opened for reading as text", "the encoding reaches open()",
+                    "the file is read once", "the decoded file content is the parser's first argument",
+                    "parser_settings are exactly the constructor keywords", "file_path and the remaining keywords reach run()",
+                    "the result of run() is returned as is"):
+            ob(f"parse_from_file: {key}", key not in problems, f"{n} combinations of encoding / parser_settings / run arguments" +
+               ("" if key not in problems else f"; fails for: {problems[key]}"), "parse_from_file (evaluated abstractly)")
+        # ---- cli.run_for_file
+        RF = "simple_ddl_parser.cli:run_for_file"
+        probs = {}
+        n = 0
+        for no_dump, v, mode in itertools.product((False, True), (False, True), ("sql", "hql")):
+            n += 1
+            a = Obj(ddl_file_path=path, no_dump=no_dump, target=target, output_mode=mode, v=v)
+            res, log = evaluate(ctx, RF, [a], world={"intercept": ("parse_from_file",), "returns": {"parse_from_file": RESULT}})
+            calls = [l for l in log if l[0] == "call parse_from_file"]
+            case = f"--no-dump={no_dump} -v={v} -o {mode}"
+            if len(calls) != 1:
+                probs.setdefault("the API is called once per file", f"{case}: {len(calls)} calls")
+                continue
+            cargs, ckw = calls[0][1], dict(calls[0][2])
+            fp = cargs[0] if cargs else ckw.pop("file_path", None)
+            if not eq(fp, path) or len(cargs) > 1:
+                probs.setdefault("the file path is the first argument", case)
+            if ckw.get("dump", False) is not (not no_dump):
+                probs.setdefault("--no-dump switches the dump off, its absence on", f"{case}: dump={ckw.get('dump')!r}")
+            if not eq(ckw.get("dump_path", "schemas"), target):
+                probs.setdefault("-t is the dump directory", f"{case}: dump_path={ckw.get('dump_path')!r}")
+            if ckw.get("output_mode", "sql") != mode:
+                probs.setdefault("-o is the output mode", f"{case}: output_mode={ckw.get('output_mode')!r}")
+            if set(ckw) - {"dump", "dump_path", "output_mode"}:
+                probs.setdefault("nothing else is passed", f"{case}: {sorted(set(ckw) - {'dump', 'dump_path', 'output_mode'})}")
+            shown = [l for l in log if l[0] in ("pprint", "print")]
+            if bool(shown) != bool(v or no_dump) or (shown and not eq(shown[0][1][0], RESULT)):
+                probs.setdefault("the result is printed with -v or --no-dump (and only then)", case)
+        for key in ("the API is called once per file", "the file path is the first argument", "--no-dump switches the dump off, its absence on",
+                    "-t is the dump directory", "-o is the output mode", "nothing else is passed",
+                    "the result is printed with -v or --no-dump (and only then)"):
+            ob(f"sdp, one file: {key}", key not in probs, f"{n} flag combinations" + ("" if key not in probs else f"; fails for: {probs[key]}"),
+               "cli.run_for_file (evaluated abstractly)")
+        # ---- cli.main
+        MN = "simple_ddl_parser.cli:main"
+        names = ["a.sql", "b.txt", "c.ddl", "README", "d.tar.hql", "e.bql", "f.sql.bak", "g.hql"]
+        accepted = ["a.sql", "c.ddl", "d.tar.hql", "e.bql", "g.hql"]
+        dirp = w("ddl", "some/dir", "/abs/d", "x.y", "D", "d2")
+
+        def world(a, **kw):
+            seen = []
+            wd = {"intercept": ("run_for_file", "cli"), "returns": {"cli": Obj(_kind="instance:ArgumentParser")}, "args": a,
+                  "on_run_for_file": lambda it, ar, k: seen.append(ar[0].ddl_file_path if ar else None)}
+            wd.update(kw)
+            return wd, seen
+        a = Obj(ddl_file_path=path, no_dump=False, target=target, output_mode="sql", v=False)
+        wd, seen = world(a, exists=False)
+        evaluate(ctx, MN, [], world=wd)
+        ob("sdp: a path that does not exist parses nothing", not seen, f"{len(seen)} calls", "cli.main (evaluated abstractly)")
+        wd, seen = world(a, exists=True, isfile=True)
+        evaluate(ctx, MN, [], world=wd)
+        ob("sdp <file>: the API is called once, for that file", len(seen) == 1 and eq(seen[0], path), f"calls for {seen!r}"[:200],
+           "cli.main (evaluated abstractly)")
+        a = Obj(ddl_file_path=dirp, no_dump=False, target=target, output_mode="sql", v=False)
+        wd, seen = world(a, exists=True, isfile=False, listdir=names)
+        evaluate(ctx, MN, [], world=wd)
+        want = [W([f"{d.rstrip('/')}/{nm}" for d in dirp.ex]) for nm in accepted]
+        ob("sdp <directory>: once per .sql / .ddl / .hql / .bql file of the directory, in listing order, with its path",
+           len(seen) == len(want) and all(eq(x, y) for x, y in zip(seen, want)), f"called for {[getattr(x, 'ex', [x])[0] for x in seen]!r}"[:300],
+           "cli.main (evaluated abstractly)")
+        # ---- dump_data_to_file
+        DD = "simple_ddl_parser.output.core:dump_data_to_file"
+        nm = w("a", "b_1", "Orders", "x", "my.table", "T")
+        for isdir in (False, True):
+            res, log = evaluate(ctx, DD, [nm, target, RESULT], world={"isdir": isdir})
+            mk = [l for l in log if l[0] in ("os.makedirs",)]
+            op = [l for l in log if l[0] == "open"]
+            jd = [l for l in log if l[0] == "json.dump"]
+            wantf = W([f"{t}/{n_}_schema.json" for t, n_ in zip(target.ex, nm.ex)])
+            if not isdir:
+                ob("dump: a missing target directory is created (with its parents)", len(mk) == 1 and eq(mk[0][1][0], target),
+                   f"{[l[0] for l in log]}", "dump_data_to_file (evaluated abstractly)")
+            ob(f"dump: the file written is <target>/<name>_schema.json (target {'exists' if isdir else 'missing'})",
+               len(op) == 1 and eq(op[0][1][0], wantf) and (op[0][1][1] if len(op[0][1]) > 1 else op[0][2].get("mode")) in ("w", "w+", "wt"),
+               f"open{tuple(op[0][1]) if op else ()}"[:200], "dump_data_to_file (evaluated abstractly)")
+            ob(f"dump: the data is written once with json.dump (target {'exists' if isdir else 'missing'})",
+               len(jd) == 1 and eq(jd[0][1][0], RESULT) and set(jd[0][2]) <= {"indent", "ensure_ascii", "sort_keys", "separators"},
+               f"{[(l[0], l[2]) for l in jd]}"[:200], "dump_data_to_file (evaluated abstractly)")
+        # ---- Parser.run: what is dumped, under which name, and when
+        flat = [{"schema": None, "sequence_name": w("s1", "Seq", "q_2"), "increment": 1}, {"schema_name": w("sc", "Sch", "s_5")}]
+        for grouped in (False, True):
+            want = format_output(ctx, flat, "sql", grouped)
+            got, dumps = run_tail(ctx, flat, group_by_type=grouped, dump=False, dump_path=target, file_path=path)
+            ob(f"run(dump=False, group_by_type={grouped}) writes nothing", not dumps and eq(got, want), f"{len(dumps)} dump(s)", "Parser.run (evaluated abstractly)")
+            for jdump in (False, True):
+                got, dumps = run_tail(ctx, flat, group_by_type=grouped, dump=True, dump_path=target, file_path=path, json_dump=jdump)
+                base = W([p_.split("/")[-1] for p_ in path.ex])
+                ok = len(dumps) == 1 and len(dumps[0][0]) == 3 and eq(dumps[0][0][1], target) and eq(dumps[0][0][2], want)
+                name = dumps[0][0][0] if ok else None
+                # the documented name: the base name of the input (directory removed) up to its extension
+                ok_name = ok and all(isinstance(x, str) and b.startswith(x) and x and "/" not in x for x, b in zip(getattr(name, "ex", [name] * 6), base.ex))
+                from ..objabs import abstract_json_dumps
+                ob(f"run(group_by_type={grouped}, json_dump={jdump}) returns the result" + (" encoded by json.dumps" if jdump else ""),
+                   eq(got, abstract_json_dumps(want) if jdump else want), f"{got!r}"[:200], "Parser.run (evaluated abstractly)")
+                ob(f"run(dump=True, file_path=..., group_by_type={grouped}, json_dump={jdump}): one dump of the result structure into dump_path",
+                   ok, f"dumps {[(type(a_).__name__) for d_ in dumps for a_ in d_[0]]}"[:200], "Parser.run (evaluated abstractly)")
+                ob(f"run(dump=True, group_by_type={grouped}, json_dump={jdump}): the dump is named after the base name of file_path",
+                   ok_name, f"name {getattr(name, 'ex', name)!r} for paths {path.ex!r}"[:300], "Parser.run (evaluated abstractly)")
+    except (PyRaise, Raised) as e:
+        ob("the entry points do not raise on the scenarios", False, f"{e}", "entry points (evaluated abstractly)")
+    except (LexUnknown, NonUniform, ShapeMismatch) as e:
+        raise AnalysisError(f"entry points outside the interpreted subset: {e}")
+
+
 def run(ck, ctx):
     m = ctx.model
     ck.explanation = (
@@ -71,11 +246,8 @@ def run(ck, ctx):
         "json.dump. CLI: --no-dump / -t / -o are wired to dump / dump_path / output_mode with the right polarity and defaults, "
         "a file argument calls the API once, a directory argument once per accepted file, and the extension test looks at the "
         "last extension and accepts sql / ddl / hql / bql.")
-    # ---- parse_from_file
+    # ---- parse_from_file: statelessness (syntactic), everything else by abstract evaluation (O-entry)
     pf = _F(m.func("simple_ddl_parser.ddl_parser:parse_from_file"))
-    params = pf.params
-    ck.ob("T-PASS", "parse_from_file(file_path, encoding='utf-8', parser_settings=None, **kwargs)",
-          params[:3] == ["file_path", "encoding", "parser_settings"] and pf.node.args.kwarg is not None, str(params), pf.loc())
     stateful = [n for n in ast.walk(pf.node) if isinstance(n, (ast.Global, ast.Nonlocal))]
     for n in ast.walk(pf.node):
         if isinstance(n, ast.Name) and n.id in pf.module.assigns and n.id not in ("List", "Dict", "Optional"):
@@ -83,80 +255,19 @@ def run(ck, ctx):
         if isinstance(n, (ast.Attribute, ast.Subscript)) and isinstance(n.ctx, ast.Store) and not (
                 isinstance(n.value, ast.Name) and n.value.id in ("self",)):
             stateful.append(n)
+    # ... and neither do the module-level helpers it calls (a parser / result cache keyed by anything is state between calls)
+    helpers = [f for f in ctx.callgraph.reachable([m.func("simple_ddl_parser.ddl_parser:parse_from_file")])
+               if not f.cls and f.module.name in ("simple_ddl_parser.ddl_parser", "simple_ddl_parser.cli") and f.name != "parse_from_file"]
+    for hf in helpers:
+        for n in ast.walk(hf.node):
+            if isinstance(n, (ast.Global, ast.Nonlocal)):
+                stateful.append(n)
+            if isinstance(n, ast.Name) and n.id in hf.module.assigns and isinstance(
+                    hf.module.assigns[n.id], (ast.Dict, ast.List, ast.Set, ast.Call, ast.DictComp, ast.ListComp)):
+                stateful.append(n)
     ck.ob("T-PASS", "parse_from_file keeps no state between calls (no global, no module-level value, no attribute / item store)",
           not stateful, f"{[ast.unparse(x)[:40] for x in stateful][:3]}", pf.loc())
-    opens = _calls(pf, "open")
-    ck.ob("T-PASS", "one open() call", len(opens) == 1, "", pf.loc())
-    for o in opens:
-        args = [ast.unparse(a) for a in o.args]
-        kw = _kw(o)
-        mode = args[1] if len(args) > 1 else kw.get("mode", "'r'")
-        ck.ob("T-PASS", "open(file_path, 'r', encoding=encoding)", args[:1] == ["file_path"] and mode in ("'r'", "'rt'")
-              and kw.get("encoding") == "encoding", ast.unparse(o), pf.loc(o))
-    ctor = _calls(pf, "DDLParser")
-    ck.ob("T-PASS", "one DDLParser(...) construction", len(ctor) == 1, "", pf.loc())
-    wv = None
-    for w in [s for s in ast.walk(pf.node) if isinstance(s, ast.With)]:
-        for it in w.items:
-            if it.optional_vars is not None and any(x in opens for x in ast.walk(it.context_expr)):
-                wv = ast.unparse(it.optional_vars)
-    for c in ctor:
-        args = [ast.unparse(a) for a in c.args]
-        stars = [ast.unparse(k.value) for k in c.keywords if k.arg is None]
-        ck.ob("T-PASS", "DDLParser(<file content>, **(parser_settings or {}))", args == [f"{wv}.read()"] and
-              stars in (["parser_settings or {}"], ["(parser_settings or {})"]) and not _kw(c),
-              f"{ast.unparse(c)[:80]}: the decoded file content must be the only positional argument and parser_settings the only "
-              "keywords", pf.loc(c))
-    runs = [n for n in ast.walk(pf.node) if isinstance(n, ast.Call) and isinstance(n.func, ast.Attribute) and n.func.attr == "run"]
-    ck.ob("T-PASS", "one .run(...) call", len(runs) == 1, "", pf.loc())
-    for r in runs:
-        kw = _kw(r)
-        stars = [ast.unparse(k.value) for k in r.keywords if k.arg is None]
-        ck.ob("T-PASS", ".run(file_path=file_path, **kwargs) on the constructed parser", r.func.value in ctor and kw == {"file_path": "file_path"}
-              and stars == ["kwargs"] and not r.args, ast.unparse(r)[:90], pf.loc(r))
-        rets = [x for x in ast.walk(pf.node) if isinstance(x, ast.Return)]
-        ck.ob("T-PASS", "the run() result is returned as is", len(rets) == 1 and rets[0].value is r,
-              ast.unparse(rets[0])[:60] if rets else "no return", pf.loc())
-    # ---- run(): dump branch
-    run_f = m.parser_method("run")
-    dumps = _calls(run_f, "dump_data_to_file")
-    ck.ob("T-PASS", "run(): dump_data_to_file call sites", len(dumps) == 2, f"{len(dumps)}", run_f.loc())
-    jd = [n for n in ast.walk(run_f.node) if isinstance(n, ast.Call) and ast.unparse(n.func) == "json.dumps"]
-    for d in dumps:
-        st = S.stmt_of(run_f, d)
-        atoms = guard_atoms(run_f.node, st)
-        ck.ob("T-FILE.guard", "dump_data_to_file under `if dump`", ("dump", True) in atoms, f"guards {atoms}", run_f.loc(d))
-        if ("file_path", True) in atoms:
-            args = [ast.unparse(a) for a in d.args]
-            name_ok = args[:1] in (["os.path.basename(file_path).split('.')[0]"], ["os.path.splitext(os.path.basename(file_path))[0]"],
-                                   ["os.path.basename(file_path).rsplit('.', 1)[0]"])
-            ck.ob("T-PASS", "dump name = base name of file_path (directory part removed first)", name_ok,
-                  f"name expression `{args[:1]}`", run_f.loc(d))
-            ck.ob("T-PASS", "dump_data_to_file(<name>, dump_path, self.tables)", args[1:] == ["dump_path", "self.tables"], str(args), run_f.loc(d))
-        for j in jd:
-            ck.ob("T-PASS", "the dump happens before the optional JSON encoding of the result", d.lineno < j.lineno,
-                  "the dumped object must be the result structure, not its JSON string", run_f.loc(d))
-    last_tables = None
-    for st in run_f.node.body:
-        if isinstance(st, ast.Assign) and ast.unparse(st.targets[0]) == "self.tables":
-            last_tables = st
-    ddf = m.func("simple_ddl_parser.output.core:dump_data_to_file")
-    p3 = ddf.params
-    ck.ob("T-PASS", "dump_data_to_file(table_name, dump_path, data)", p3 == ["table_name", "dump_path", "data"], str(p3), ddf.loc())
-    opens = _calls(ddf, "open")
-    for o in opens:
-        args = [ast.unparse(a) for a in o.args]
-        name = args[0] if args else ""
-        ok = name in ("'{}/{}_schema.json'.format(dump_path, table_name)", "f'{dump_path}/{table_name}_schema.json'",
-                      "os.path.join(dump_path, f'{table_name}_schema.json')", "os.path.join(dump_path, '{}_schema.json'.format(table_name))")
-        ck.ob("T-PASS", "file written is <dump_path>/<name>_schema.json", ok, name, ddf.loc(o))
-        mode = args[1] if len(args) > 1 else _kw(o).get("mode", "'r'")
-        ck.ob("T-PASS", "opened for writing (truncating)", mode in ("'w'", "'w+'", "'wt'"), mode, ddf.loc(o))
-    jds = _calls(ddf, "json.dump")
-    ck.ob("T-PASS", "one json.dump(data, <file>) call", len(jds) == 1 and [ast.unparse(a) for a in jds[0].args][:1] == ["data"]
-          and set(_kw(jds[0])) <= {"indent", "ensure_ascii", "sort_keys", "separators"}, ast.unparse(jds[0])[:70] if jds else "", ddf.loc())
-    mk = _calls(ddf, "os.makedirs")
-    ck.ob("T-PASS", "a missing target directory is created", len(mk) == 1 and [ast.unparse(a) for a in mk[0].args][:1] == ["dump_path"], "", ddf.loc())
+    _entry(ck, ctx)
     # file effects (shared rule with C14)
     S.t_file(ck, ctx, {
         "dump_data_to_file": ("Parser.run", "dump", False),
@@ -182,45 +293,6 @@ def run(ck, ctx):
     ck.ob("T-CLI", "-o / --output-mode defaults to 'sql'", om is not None and om.get("default") == "'sql'" and find("-o") is om and "action" not in om, str(om), cli.loc())
     fp = find("ddl_file_path")
     ck.ob("T-CLI", "positional ddl_file_path", fp is not None, "", cli.loc())
-    rff = m.func("simple_ddl_parser.cli:run_for_file")
-    calls = _calls(rff, "parse_from_file")
-    ck.ob("T-CLI", "run_for_file calls parse_from_file once", len(calls) == 1, "", rff.loc())
-    for c in calls:
-        kw = _kw(c)
-        args = [ast.unparse(a) for a in c.args]
-        ok = (args == ["args.ddl_file_path"] or kw.get("file_path") == "args.ddl_file_path") and kw.get("dump") == "not args.no_dump" \
-            and kw.get("dump_path") == "args.target" and kw.get("output_mode") == "args.output_mode" and \
-            set(kw) <= {"dump", "dump_path", "output_mode", "file_path"}
-        ck.ob("T-CLI", "parse_from_file(args.ddl_file_path, dump=not args.no_dump, dump_path=args.target, output_mode=args.output_mode)", ok,
-              ast.unparse(c)[:120], rff.loc(c))
-        ck.ob("T-CLI", "the call is unconditional", not [a for a in guard_atoms(rff.node, S.stmt_of(rff, c))], "", rff.loc(c))
-    mn = m.func("simple_ddl_parser.cli:main")
-    rcalls = _calls(mn, "run_for_file")
-    ck.ob("T-CLI", "main: one call for a file argument, one per file of a directory", len(rcalls) == 2, f"{len(rcalls)} call sites", mn.loc())
-    for c in rcalls:
-        st = S.stmt_of(mn, c)
-        atoms = guard_atoms(mn.node, st)
-        if ("os.path.isfile(args.ddl_file_path)", True) in atoms:
-            ck.ob("T-CLI", "file argument: run_for_file(args) once", not any(a[0] == "'<loop>'" for a in atoms), str(atoms), mn.loc(c))
-        else:
-            loops = [n for n in ast.walk(mn.node) if isinstance(n, ast.For) and any(x is c for x in ast.walk(n))]
-            ok = len(loops) == 1 and isinstance(loops[0].iter, ast.Name)
-            ck.ob("T-CLI", "directory argument: run_for_file(args) once per listed file", ok, "", mn.loc(c))
-            if ok:
-                lv = loops[0].iter.id
-                comp = [n for n in ast.walk(mn.node) if isinstance(n, ast.Assign) and ast.unparse(n.targets[0]) == lv]
-                ok2 = len(comp) == 1 and isinstance(comp[0].value, ast.ListComp)
-                if ok2:
-                    lc = comp[0].value
-                    g = lc.generators[0]
-                    v = ast.unparse(g.target)
-                    ok2 = ast.unparse(lc.elt) == f"os.path.join(args.ddl_file_path, {v})" and ast.unparse(g.iter) == "os.listdir(args.ddl_file_path)" \
-                        and [ast.unparse(i) for i in g.ifs] == [f"correct_extension({v})"]
-                ck.ob("T-CLI", "files = [join(dir, n) for n in os.listdir(dir) if correct_extension(n)]", ok2,
-                      ast.unparse(comp[0].value)[:120] if comp else "", mn.loc())
-                sets = [n for n in loops[0].body if isinstance(n, ast.Assign)]
-                ck.ob("T-CLI", "each file becomes args.ddl_file_path", any(ast.unparse(s.targets[0]) == "args.ddl_file_path" and
-                      ast.unparse(s.value) == ast.unparse(loops[0].target) for s in sets), "", mn.loc(loops[0]))
     ce = m.func("simple_ddl_parser.cli:correct_extension")
     exts = None
     cands = [n.value for n in ast.walk(ce.node) if isinstance(n, ast.Assign)] + list(ce.module.assigns.values())
